@@ -100,10 +100,10 @@ func (h *hist) begin(op Op) {
 			return // this id is inside its call already: the op is ignored
 		}
 	}
-	p, obj := h.newObj(op.Tag, true)
+	call, obj := h.prepare(op.Via, op.Tag, true, op.Rev)
 	f := &inflight{u: op.U, obj: obj, tag: op.Tag, release: make(chan bool, 1), done: make(chan error, 1)}
 	stub.cur.Store(f)
-	go func() { f.done <- h.acc.UpdatePoliciesData(p, op.Rev) }()
+	go func() { f.done <- call() }()
 	select {
 	case <-stub.entered:
 		stub.cur.Store(nil)
@@ -115,6 +115,7 @@ func (h *hist) begin(op Op) {
 	case err := <-f.done: // the update made no HAProxy call at all: it was atomic
 		stub.cur.Store(nil)
 		if err != nil {
+			noteEntryError(op.Via, err, false)
 			h.ev("refused", 0, obj, op.Tag, false)
 			return
 		}
@@ -420,7 +421,7 @@ func randomWindows(o *c.Out) {
 				k.Ops = append(k.Ops, Op{K: "get", Txn: r.Range(1, ntx)})
 				marks = append(marks, now)
 			case x < 40:
-				up := Op{K: c.Pick(r, []string{"update", "update", "revert", "refuse"}), Tag: r.Intn(4)}
+				up := Op{K: c.Pick(r, []string{"update", "update", "revert", "refuse"}), Tag: r.Intn(4), Via: pickVia(r, 45)}
 				if up.K != "refuse" && r.Chance(1, 3) {
 					up.In = []Op{{K: "get", Txn: r.Range(1, ntx+1)}}
 				}
@@ -430,7 +431,7 @@ func randomWindows(o *c.Out) {
 				if len(fl) >= 2 {
 					continue
 				}
-				k.Ops = append(k.Ops, Op{K: "begin", U: nextU, Tag: r.Intn(4), Rev: r.Chance(1, 4)})
+				k.Ops = append(k.Ops, Op{K: "begin", U: nextU, Tag: r.Intn(4), Rev: r.Chance(1, 4), Via: pickVia(r, 45)})
 				fl = append(fl, nextU)
 				nextU++
 				marks = append(marks, now)
